@@ -18,3 +18,9 @@ claim("C19",
   "For each rejected marker-carrying value, every *SchemaError reachable from the returned error (multi-error members, Unwrap, Origin) must have a Reason free of markers, and the whole Error() text must be free of markers under a reason-only WithCustomSchemaErrorFunc or with schema error details disabled. Sampled; the evidence lists the failing keyword x entry point classes actually reached.",
   "Trusted: marker construction (length >= 6, absent from the schema text). Property names are not 'string values' here. Parse errors of parameters are outside the quantifier (only parameters that parse but fail their schema are asserted).",
   "DESIGN.md#c19")
+
+claim("C10",
+  "property-based testing / fuzzing with a crash oracle: docgen legal-but-unusual documents that load and pass Validate x structure-aware hostile requests and responses x option sets, driven through both routers, FindRoute, ValidateRequest, ValidateResponse, ConvertErrors, Error() and the Validator middleware; every call guarded (panic signature by first kin-openapi frame, watchdog for non-termination, journal for process death); native fuzzing in the thorough tier",
+  "Every generated case must return normally from every call. Documents are constructed to be accepted by document validation (the property's precondition; the rejection rate is measured) and deliberately use what validation does not forbid. Absence of panics is not established, only not found in what was explored.",
+  "Trusted: the guard (recover + stack parsing) and the watchdog. Traffic is built as *http.Request / header / body values the way net/http hands them over; raw sockets are not used. Seven crash classes found here were repaired (see known_findings.json).",
+  "DESIGN.md#c10")
